@@ -331,12 +331,20 @@ def run(ctx: Context) -> None:
                         k = 'units-since'
                     elif isinstance(t.ops[0], ast.Eq) and 'datetime64' in norm_text(right) and norm_text(gflow.resolve(left)).endswith('.dtype.type'):
                         k = 'is-datetime'
+                    elif isinstance(t.ops[0], ast.In) and isinstance(right, ast.Call) and callee(ctx, gtc, right) == 'emsarray.utils.bounds_variable_names':
+                        k = 'a-bounds-variable'
+                elif isinstance(t, ast.Compare) and len(t.ops) == 1 and pol is False and isinstance(t.ops[0], ast.In) \
+                        and isinstance(gflow.resolve(t.comparators[0]), ast.Call) and callee(ctx, gtc, gflow.resolve(t.comparators[0])) == 'emsarray.utils.bounds_variable_names':
+                    k = 'not-a-bounds-variable'
                 elif isinstance(t, ast.BoolOp):
                     continue        # the conjunction itself; its conjuncts are listed separately
                 kinds.append(k)
-            ctx.check('R17.5', sorted(kinds) == ['has-units', 'is-datetime', 'units-since'],
-                      "the time variable is recognised by exactly: units in its encoding, of the form '... since ...', decoded to datetime64 (whatever its rank or position)",
+            ctx.check('R17.5', sorted(kinds) == ['has-units', 'is-datetime', 'not-a-bounds-variable', 'units-since'],
+                      "the time variable is recognised by exactly: not the bounds of another variable, units in its encoding, of the form '... since ...', decoded to datetime64 (whatever its rank or position)",
                       gtc, r, construct=f"time_coordinate returns a variable under {sorted(kinds)}")
+        from . import infra as _infra2
+        _infra2.bounds_excluded(ctx, 'R17.5', f"{BASE}.time_coordinate", "time coordinate discovery")
+        _infra2.bounds_names_helper(ctx, 'R17.5')
         sites = []
         for f in list(p.functions.values()):
             if not f.qualname.startswith('emsarray.') or f.parent is not None:
@@ -371,6 +379,8 @@ from ..variants import V  # noqa: E402
 _U = 'src/emsarray/utils.py'
 _B = 'src/emsarray/conventions/_base.py'
 VARIANTS = [
+    V('C17', 'time-bounds-taken-for-time', 'src/emsarray/conventions/_base.py', "            if name in bounds_names:\n                # The bounds of a time coordinate are decoded like the coordinate\n                continue\n", "", 'R17.5'),
+    V('C17', 'bounds-names-from-data-vars', 'src/emsarray/utils.py', "        for variable in dataset.variables.values()\n        if 'bounds' in variable.attrs", "        for variable in dataset.data_vars.values()\n        if 'bounds' in variable.attrs", 'R17.5'),
     V('C17', 'abs-removed', _U, "divmod(abs(int(offset_total)), 60)", "divmod(int(offset_total), 60)", 'R17.1'),
     V('C17', 'hours-variable-width', _U, "f'{offset_sign}{offset_hours:02d}:{offset_minutes:02d}'", "f'{offset_sign}{offset_hours:d}:{offset_minutes:02d}'", 'R17.2'),
     V('C17', 'sign-from-hours', _U, "f'{offset_sign}{offset_hours:02d}:{offset_minutes:02d}'", "f'{offset_hours:+03d}:{offset_minutes:02d}'", 'R17.2'),
